@@ -500,7 +500,16 @@ def _run_job_once(job, workroot, keep=False):
         if not any(p.cls == 'loop' for p in res.props):
             res.reason = 'loop contract silently dropped (no loop_invariant obligations)'
             return res
-    res.status = 'failed' if res.failed() else 'ok'
+    if res.failed():
+        res.status = 'failed'
+    else:
+        odd = [p for p in res.props if p.status != 'SUCCESS']
+        if odd:
+            # CBMC reports ERROR/UNKNOWN when the back end died (e.g. the external SAT solver ran out of memory)
+            # after a first solver iteration: nothing is proved about those properties
+            res.reason = 'cbmc left %d properties undecided (status %s): solver failure' % (len(odd), odd[0].status)
+            return res
+        res.status = 'ok'
     if not keep and res.status == 'ok':
         shutil.rmtree(wd, ignore_errors=True)
     return res
